@@ -68,7 +68,7 @@ def observe(ip, m):
 def structure_unit(shape):
     @unit(f"C15.structure.{shape}", "C15", [f"{M}::GraphBuilder._all_nodes_and_vars", f"{M}::GraphBuilder._set_missing_names", f"{M}::GraphBuilder._do_set_missing_names",
                                            f"{M}::GraphBuilder.build_model", f"{M}::Model.__init__", f"{M}::Model._build_node_graph", f"{N}::Node._add_output", f"{N}::Node._clear_outputs", f"{N}::Node._set_model"],
-          assumptions=[f"graph shape '{shape}' plus an unnamed node and a shared input", "A-NX: topological_sort returns a topological order and raises on cycles"])
+          assumptions=[f"graph shape '{shape}' plus an unnamed node, a shared input and a stand-alone distribution with a hand-set evaluation point", "A-NX: topological_sort returns a topological order and raises on cycles"])
     def u(ip, shape=shape):
         """the built model contains every recursive input of the added roots exactly once, all names non-empty and pairwise distinct
         (given names unchanged), outputs are the exact inverse of inputs, the update order is topological, every node belongs to the model."""
@@ -81,9 +81,14 @@ def structure_unit(shape):
         extra2 = g.calc("f_unnamed2", first_var, extra)
         named = ip.call(g.Value, [z3.Const("c0", U)], {"_name": "n0"})  # occupies the first automatic name
         root2 = g.calc("f_top", extra2, named, name="top")
-        model = g.build(*roots, root2)
+        # a stand-alone distribution node (no variable) whose evaluation point was set by hand and is reachable only through `at`
+        at_src = g.calc("f_at_point", first_var, name="at_point")
+        bare = g.dist("Dbare", named)
+        ip.setattr(bare, "at", at_src)
+        model = g.build(*roots, root2, bare)
         nodes = list(model.f["_nodes"].values())
-        want = [x for x in closure([r.f["_value_node"] if r.clsname == "Var" else r for r in list(roots) + [root2]] + [v_ for r in roots if r.clsname == "Var" for v_ in [r.f["_var_value_node"], r.f["_dist_node"]] if v_.clsname != "NoDist"])]
+        c.oblige("evaluation_point_of_bare_distribution_is_in_the_model", any(x is at_src for x in nodes) and ip.getattr(at_src, "model") is model)
+        want = [x for x in closure([r.f["_value_node"] if r.clsname == "Var" else r for r in list(roots) + [root2, bare]] + [v_ for r in roots if r.clsname == "Var" for v_ in [r.f["_var_value_node"], r.f["_dist_node"]] if v_.clsname != "NoDist"])]
         user_nodes = [x for x in nodes if not x.f["_name"].startswith("_model")]
         c.oblige("contains_every_recursive_input_exactly_once", len(user_nodes) == len(want) and all(any(x is y for y in user_nodes) for x in want))
         names = [x.f["_name"] for x in nodes]
